@@ -49,6 +49,8 @@ def fixed_cases(tier):
     out = []
     for spec in C.name_table_specs():
         out.append({"spec": spec, "base": {"feats": [], "groups": [], "pos": []}, "mods": [0, 1, 4], "extra": [], "seed": 1, "all_names": True})
+    for spec in C.zero_first_specs():
+        out.append({"spec": spec, "base": {"feats": [], "groups": [], "pos": []}, "mods": [0, 1, 4], "extra": [], "seed": 3, "all_names": True})
     # strings that collide with a name under common 32-bit string hashes (tools/gen_collisions.py): a parser that
     # dispatches on a hash must still compare the text
     import json
